@@ -126,6 +126,18 @@ Theorem C07_names_follow_basis_function_order :
 Proof. intros D dofnames names skip kd k H. rewrite H. unfold row_selected. destruct kd; reflexivity. Qed.
 Print Assumptions C07_names_follow_basis_function_order.
 
+(* the per-name dictionaries (.nodal / .facet / .edge / .interior of a view, also after skip / keep / drop): the keys are exactly the
+   names of the surviving rows, each once, and the value of a key consists of exactly the DOFs of the selected entities in the
+   surviving rows that carry THAT name (row r of a block is named dofnames[r + off]) *)
+Theorem C07_dictionaries_by_name :
+  forall (blk : list (list nat)) (rows ix : list nat) (off : nat) (dofnames : list nat),
+    NoDup (map fst (by_name blk rows ix off dofnames)) /\
+    (forall n, In n (map fst (by_name blk rows ix off dofnames)) <-> exists r, In r rows /\ nth (r + off) dofnames 0 = n) /\
+    (forall n l, In (n, l) (by_name blk rows ix off dofnames) ->
+       forall d, In d l <-> exists r j, In r rows /\ nth (r + off) dofnames 0 = n /\ In j ix /\ d = nth j (nth r blk []) 0).
+Proof. exact by_name_spec. Qed.
+Print Assumptions C07_dictionaries_by_name.
+
 (* the argument-free query selects the boundary facets of C11 (exactly the facets with a single neighbour), and the complement
    query is the set complement in [0, N) *)
 Theorem C07_boundary_default_and_complement :
